@@ -97,6 +97,27 @@ func driveAllocs(s *shardSet, rng *rand.Rand, thorough bool) ([]string, map[stri
 				w.Append(win2, one) // fits
 				w.Append(win2, one) // does not fit any more: unconstrained
 				w.Append(full, one) // grows: unconstrained
+				// appending within capacity from a source that overlaps the destination's spare window, and from
+				// a window further along the same storage (values are outside every property; allocation is not)
+				if l >= 4 {
+					w.Alloc(ty, ch, l, l)
+					ob := len(w.Views) - 1
+					w.Slice(ob, 0, l/2)
+					od := len(w.Views) - 1
+					w.Slice(ob, l/4, l/4+l/2)
+					w.Append(od, len(w.Views)-1)
+				}
+				// channel views of a parent whose last frame is partly filled
+				if ch > 1 {
+					w.Alloc(ty, ch, 1, 3)
+					pv := len(w.Views) - 1
+					w.AppendSample(pv, w.NextStamp())
+					for c := 0; c < ch; c++ {
+						w.Views[pv].ChanNew(c)
+						w.emit(&Event{Op: "Observe", Res: "ok", Cnt: -1, Allocs: lastAllocs})
+					}
+					w.ChanSet(pv, 0, 1, w.NextStamp())
+				}
 				// all nine conversions from/to this type
 				if ty == kt {
 					for _, f := range ConvFns {
